@@ -67,6 +67,14 @@ def gen_case(rng, quick, force=None):
         axis = force.get("axis", rng.choice([0, 1]))
         n = rng.randint(3, nmax)
         d = rng.randint(3, dmax)
+        # strongly rectangular shapes (more than 4x taller / wider): shape-dependent shortcuts
+        r_shape = rng.random()
+        if r_shape < 0.12:
+            d = 3
+            n = rng.randint(4 * d + 1, 4 * d + 5)
+        elif r_shape < 0.2:
+            n = 3
+            d = rng.randint(4 * n + 1, 4 * n + 5)
         fam = force.get("family") or rng.choice(FAMILIES)
         X = gen_matrix(rng, n, d, fam)
         rank = int(np.linalg.matrix_rank(np.array(X)))
